@@ -30,6 +30,8 @@ CLAIMED = {
          'validation checks exist, reject without suspending and dominate every await; no overflow-checked arithmetic on raw arguments before a check on them; beyond-the-end credit only for backing devices; arithmetic results not decided', 'C13'),
  'C18': ('flag-protocol typestate over the async call graph + loop/phase dominance rule',
          'need_flush set adjacent to every dirtying event, cleared only where nothing can be RAM-dirty, refcount sweep in every flush pass; race with the last pass of an overlapping flush not decided', 'C18'),
+ 'C19': ('sibling cross-check of the three Qcow2IoOps implementations (data-dependence slices, dominance, loop/accumulation rule) + fault-model typestate for the punch fallback',
+         'read count provenance, short-write handling, flush of buffered writers, offset pass-through, shared punch helper and flags, zero-write fallback, sync primitive reachability agree across the three backends; equality with the host-file model not decided', 'C19'),
 }
 
 PENDING_REASON = 'rule engine for this property is not finished/validated yet (DESIGN.md section 7: not shipped as a proxy)'
